@@ -277,7 +277,9 @@ def body_histories(ctx):
     a = STM[ctx.choose(pool, 'submission')] + "\n" + STM[ctx.choose(pool, 'submission-2')] + "\n"
     b = STM[ctx.choose(pool, 'other-code')] + "\n"
     how = ('find_asts(student_code=)', 'find_matches(student_code=)', 'parse_program(code)', 'set_source+restore_code',
-           'nothing', 'verify(other code)', 'find_asts(student_code=<does not parse>)')[ctx.choose(7, 'interleaved')]
+           'nothing', 'verify(other code)', 'find_asts(student_code=<does not parse>)',
+           'set_source, then a helper that does set_source(the same text)+restore_code',
+           'next_section() once more than the file has parts')[ctx.choose(9, 'interleaved')]
     case = {'submission': a, 'other': b, 'interleaved': how}
     ctx.observe(repr(case))
     ctx.set_sample(case)
@@ -323,6 +325,28 @@ def body_histories(ctx):
         if got_b is not None and got_b != want_b:
             ctx.fail({'symptom': 'explicitly given code was not the code that was searched', 'how': how.split('(')[0],
                       'loaded': loaded}, case=case, want=want_b, got=got_b)
+        elif how.startswith('next_section()'):
+            from pedal.source.sections import separate_into_sections, next_section
+            parts = a.split("\n", 1)
+            a2 = parts[0] + "\n##### Part 1\n" + parts[1]
+            cmds.clear_report()
+            cmds.contextualize_report(a2)
+            separate_into_sections()
+            next_section()
+            next_section()           # one too many: reported, and the checks see the whole file again
+            w2, g2 = _lite(a2)
+            if w2 != g2:
+                ctx.fail({'symptom': 'checks no longer refer to the submission', 'after': how}, case=case, want=w2, got=g2)
+            return
+        elif how.startswith('set_source, then a helper'):
+            set_source(b)
+            set_source(b)            # a helper that makes sure `b` is current ...
+            restore_code()           # ... and undoes its own substitution
+            wb, gb = _lite(b)        # the instructor is still working on `b`
+            if wb != gb:
+                ctx.fail({'symptom': 'checks disagree with the tree', 'when': 'after a nested set_source/restore_code'},
+                         case=case, want=wb, got=gb)
+            restore_code()
         elif how.startswith('set_source'):
             set_source(b)
             wb, gb = _lite(b)
